@@ -486,6 +486,12 @@ func c15RunnerHelpers(w *World, r *Report) {
 		r.Undec("R6", "NormalizeURL", token.NoPos, "function not found")
 	} else {
 		lk := CallsIn(nu, false, "URLTreeI).Lookup", "SimpleURLTreeI).Lookup")
+		if len(lk) == 0 {
+			// delegation to the strict variant, which does the lookup itself
+			if sn := w.Fn(pkgAggCommon, "StrictNormalizeURL"); sn != nil && len(CallsIn(sn, false, "URLTreeI).Lookup", "SimpleURLTreeI).Lookup")) == 1 {
+				lk = CallsIn(nu, false, "common.StrictNormalizeURL")
+			}
+		}
 		ok := len(lk) == 1
 		if ok {
 			for _, alt := range ReturnAlts(nu, 0) {
